@@ -12,6 +12,7 @@ import Sbepp.Drive.C06
 import Sbepp.Drive.C18
 import Sbepp.Drive.C04
 import Sbepp.Drive.C08
+import Sbepp.Drive.C10
 import Sbepp.Drive.Wire
 
 open Sbepp.Drive
@@ -28,6 +29,8 @@ def dispatch (line : String) : String :=
   else if line.startsWith "traits " then C18.handle (payloadOf line "traits")
   else if line.startsWith "cursor " then C04.handle (payloadOf line "cursor")
   else if line.startsWith "verdict " then C08.handle (payloadOf line "verdict")
+  else if line.startsWith "guard " then C10.handle (payloadOf line "guard")
+  else if line.startsWith "ctrav " then C10.handleCursor (payloadOf line "ctrav")
   else
   match (line.trimAscii.toString.splitOn " ").filter (· ≠ "") with
   | [] => ""
